@@ -135,10 +135,12 @@ func Origins(v ssa.Value) []ssa.Value {
 						return
 					}
 				}
-				// load from a captured cell: every store (flow-insensitive)
+				// load from a captured cell: the stores that may be visible to
+				// the closure (those reaching its creation, later ones, and
+				// stores made by closures)
 				cell := ResolveFree(x.X)
 				if al, ok := cell.(*ssa.Alloc); ok {
-					st := StoresTo(al)
+					st := VisibleStores(al, x.Parent())
 					if len(st) > 0 {
 						for _, s := range st {
 							rec(s.Val)
@@ -323,12 +325,60 @@ func ReachingStores(ld *ssa.UnOp) (stores []*ssa.Store, zero bool) {
 	if !ok {
 		return nil, false
 	}
+	return ReachingStoresAt(al, ld)
+}
+
+// VisibleStores returns the stores to cell al that a closure `fn` (a literal
+// nested in al's function) may observe: the stores of the owner that reach
+// the creation site of the closure chain, the owner's stores that can execute
+// after that site, and all stores made by function literals.
+func VisibleStores(al *ssa.Alloc, fn *ssa.Function) []*ssa.Store {
+	owner := al.Parent()
+	// find the creation site of fn's chain in owner
+	f := fn
+	var site ssa.Instruction
+	for f != nil && f != owner {
+		sites := ClosureSites(f)
+		if len(sites) == 0 {
+			return StoresTo(al)
+		}
+		site = sites[0]
+		f = f.Parent()
+	}
+	if f != owner || site == nil {
+		return StoresTo(al)
+	}
+	seen := map[*ssa.Store]bool{}
+	var out []*ssa.Store
+	add := func(s *ssa.Store) {
+		if !seen[s] {
+			seen[s] = true
+			out = append(out, s)
+		}
+	}
+	rs, _ := ReachingStoresAt(al, site)
+	for _, s := range rs {
+		add(s)
+	}
+	after := Walk(After(site), nil, nil)
+	for _, s := range StoresTo(al) {
+		if s.Parent() != owner || after[s] {
+			add(s)
+		}
+	}
+	return out
+}
+
+// ReachingStoresAt is ReachingStores for an arbitrary program point: the
+// stores to al that may reach the point just before instruction at.
+func ReachingStoresAt(al *ssa.Alloc, at ssa.Instruction) (stores []*ssa.Store, zero bool) {
+	ld := at
 	// closures that write the cell
 	writers := map[*ssa.Function][]*ssa.Store{}
 	for _, st := range StoresTo(al) {
 		if st.Parent() != ld.Parent() {
 			f := st.Parent()
-			// attribute to the outermost closure created in ld's function
+			// attribute to the outermost closure created in the function
 			for f.Parent() != nil && f.Parent() != ld.Parent() {
 				f = f.Parent()
 			}
